@@ -165,9 +165,9 @@ func c10RowsSignSchemes() []*kit.Row {
 			Setup: func() *kit.Inst {
 				k := c10SigKeygen(s)
 				f := c10ForeignSig(s)
-				return &kit.Inst{Bases: [][]byte{k.sig, k.sig2},
+				return &kit.Inst{Bases: [][]byte{k.sig},
 					Call: func(in []byte) error { return c10Bool(s.Verify(k.pk, c10Msg, in, nil)) },
-					Extras: append([]kit.Named{{"own-public-key", k.ppk}, {"own-private-key", k.psk}, {"foreign-signature", f.sig}},
+					Extras: append([]kit.Named{{"own-public-key", k.ppk}, {"own-private-key", k.psk}, {"foreign-signature", f.sig}, {"own-signature-of-another-message", k.sig2}},
 						c10HintExtras(c10HintName(s.Name()), k.sig, c10HintTail(s.Name()))...)}
 			}})
 		if s.SupportsContext() {
